@@ -22,7 +22,7 @@ def stageTag (routes : List Route) (req : Req) : String :=
   | .error (415, _) =>
     if ((routes.filter (passesConds · req)).filter (fun r => req.method = r.method)).filter
         (matchesContentType · req.contentType) |>.isEmpty then
-      (if req.contentLength > 0 then "415-ct" else "415-ct-nobody") else "415-accept-nobody"
+      (if req.contentLength ≠ 0 then "415-ct" else "415-ct-nobody") else "415-accept-nobody"
   | .error (406, _) => "406"
   | .error _ => "?"
 
